@@ -342,11 +342,12 @@ func named(name string) types.Type {
 	return ns
 }
 
+// first returns a copy of the first n elements (a copy: callers append to the result, and the pools are shared).
 func first(xs []string, n int) []string {
 	if len(xs) > n {
-		return xs[:n]
+		xs = xs[:n]
 	}
-	return xs
+	return append([]string(nil), xs...)
 }
 
 func dedupe(xs []string) []string {
